@@ -98,6 +98,7 @@ def check(ctx, src):
             ("run_script_stdin", (nC, nM, nD, nA, nT))]
 
     def same(g, w):
+        g = [x for x in g if any(k in str(x) for k in ("command", "mod", "argv", "isatty"))]  # earlier exits (--help, --version) are not part of the order
         return len(g) == len(w) and all(x == y for x, y in zip(g, w))
 
     extra = [(a, [str(x) for x in g]) for a, g, _ in sel if not any(a == wa and same(g, w) for wa, w in want)]
@@ -117,7 +118,7 @@ def check(ctx, src):
                 seen.add(mode)
                 asg = next((s for s in ast.walk(n) if isinstance(s, ast.Assign) and dotted(s.targets[0]) == "sys.argv" and s in _own(n.body)), None)
                 run = pyq.contains(n.body, lambda x: isinstance(x, ast.Call) and dotted(x.func) == runners[mode])
-                ok = asg is not None and norm(asg.value) == want_argv[mode] and run is not None and asg.lineno < run.lineno and not pyq.guards(asg, n)[1:]
+                ok = asg is not None and norm(asg.value) == want_argv[mode] and run is not None and asg.lineno < run.lineno and any(asg is x for x in n.body)
                 ctx.check(ok, "CMD-ARGV", f"{REL}|{mode}|sys.argv", f"in mode {mode} sys.argv must be set to `{want_argv[mode]}` before {runners[mode]} runs (found `{norm(asg.value) if asg else None}`)", REL, n.lineno,
                           witness="the program sees hy's own options in sys.argv", detail=want_argv[mode])
     ctx.require(len(seen) == 4, f"action dispatch not found for {sorted(set(want_argv) - seen)}")
